@@ -12,7 +12,7 @@ from .c09 import finish
 
 KINDS = {
     'C01': ['flat', 'flat', 'multi', 'nested'],
-    'C02': ['flat', 'multi', 'nested', 'nested', 'unsized'],
+    'C02': ['flat', 'multi', 'nested', 'nested', 'unsized', 'split'],
     'C04': ['overlap', 'overlap', 'flat', 'nested', 'overlap'],
 }
 PREFIX = {'C01': ['C01_'], 'C02': ['C02_'], 'C04': ['C04_']}
